@@ -358,7 +358,7 @@ def delete_at(t, path):
     return t[:path[0]] + [delete_at(t[path[0]], path[1:])] + t[path[0] + 1:]
 
 
-def shrink(pid, bdir, case, still_fails, budget_s=60):
+def shrink(pid, bdir, case, still_fails, budget_s=40):
     """Greedy one-child deletion; still_fails(list of C strings) -> list of bool."""
     t0 = time.time()
     cur = tparse(case["C"])
@@ -559,10 +559,13 @@ def main(argv):
             by_cls = {}
             for c in spec_fail:
                 by_cls.setdefault(c["cls"], []).append(c)
-            for cls, cs in sorted(by_cls.items()):
+            for k_cls, (cls, cs) in enumerate(sorted(by_cls.items())):
+                if k_cls >= 4:
+                    notes.append("further failing oracle classes not reported separately: %s" % ", ".join(sorted(by_cls)[4:]))
+                    break
                 c = smallest(cs)
                 cstr = c["C"]
-                if not a.no_shrink and len(cstr) < 200000:
+                if not a.no_shrink and len(cstr) < 200000 and k_cls < 2:
                     try:
                         cstr = shrink(pid, bdir, c, still_fails_factory(cls, False))
                     except Exception as e:  # shrinking is best-effort
